@@ -1,4 +1,4 @@
-"""C12: integer + - * negation ++/-- are lane-wise two's-complement."""
+"""C12 (partial claim): frexp/ldexp/scalbn/ilogb/logb/frac/fmax/fmin/fdim against reference <cmath> definitions."""
 import common
 import runner
 
@@ -23,8 +23,7 @@ def run(tier, a=None):
     cfgs = select_cfgs(tier, a)
     runner.run_families(res, cfgs, ["cmathx"], type_filter(a), keytag="value")
     res.trusted = ["clang 14 front end and -O2 pipeline preserve the meaning of UB-free executions",
-                   "LLVM LangRef: add/sub/mul without nsw/nuw are arithmetic modulo 2^n per lane"]
-    return common.finish(res, explanation="every integer vector type x configuration x "
-                         "{+,-,*,unary -,++,--, compound forms}: optimised IR summarised into a "
-                         "closed form and compared with add/sub/mul modulo 2^bits on the same lane",
+                   "LLVM LangRef semantics of the IR instructions; Intel SDM semantics of the x86 intrinsics as modelled in spec/isa.py",
+                   "the term normaliser, the exact IEEE evaluator (lib/fpeval.py) and the abstract interpreter (lib/absint.py, self-tested against the concrete evaluator)"]
+    return common.finish(res, explanation='PARTIAL CLAIM (refutation side only beyond libm forwarding). every floating-point vector type x configuration x {frexp (mantissa and stored exponent), ldexp, scalbn, ilogb, logb, frac, fmax, fmin, fdim}: the optimised IR is summarised into a closed form; a call to the C library function itself is the specification (HOLDS); bit-manipulation and AVX-512 (getexp/getmant/scalef/fixupimm/range) forms are evaluated exactly (rationals, four rounding modes) against reference implementations of the <cmath> definitions on the IEEE boundary lattice and on paired (x, e) points: a difference is a refutation with its input, none found is UNDECIDED',
                          write_floor=getattr(a, "write_floor", False))
